@@ -35,6 +35,7 @@ theorem next_eq (s : RateOfChange F) (x v v0 : F) (h : WF s)
   have hv := Option.some.inj hv
   have hv0 := Option.some.inj hv0
   unfold next
+  try simp only [gen_helper]
   rs_exec
   all_goals (first | omega | (subst hv; subst hv0; rfl))
 
@@ -49,6 +50,7 @@ theorem next_total (s : RateOfChange F) (x : F) (h : WF s) :
 
 theorem nextBar_eq (s : RateOfChange F) (b : Bar F) : s.nextBar b = s.next b.close := by
   unfold nextBar
+  try simp only [gen_helper]
   cases h : s.next b.close <;> simp [h]
 
 end TaRs.Gen.RateOfChange
